@@ -2248,13 +2248,36 @@ def restore_function_names(trees, ref):
 
 
 # ---------------------------------------------------------------------------
-def normalise_trees(trees, reference=None, inline=True):
+class StageFailure(Exception):
+    def __init__(self, stage, err):
+        Exception.__init__(self, '%s: %s: %s' % (stage, type(err).__name__, err))
+        self.stage = stage
+
+
+def _guarded(trees, report, what, step, disabled=()):
+    """Run one rewriting stage.  If it fails on some unforeseen construct the caller
+    (Project) parses the sources again and repeats the normalisation without that stage:
+    a stage that cannot run must not take the whole analysis down."""
+    if what in disabled:
+        report.setdefault('stages_skipped', []).append(what)
+        return None
+    try:
+        return step()
+    except RecursionError:
+        raise
+    except Exception as e:          # noqa: a defect of the normaliser, never of circus
+        raise StageFailure(what, e)
+
+
+def normalise_trees(trees, reference=None, inline=True, disabled=()):
     """trees: modname -> ast.Module (rewritten in place).  Returns a report
     dict for the evidence."""
     ref = reference if reference is not None else load_reference()
     report = {'constants_propagated': [], 'helpers_inlined': [], 'helpers_removed': [],
               'helpers_not_inlined': {}, 'steps': {}}
-    if ref is not None:
+    sn = StmtNorm()
+
+    def consts_stage():
         ref_consts = set(ref.get('constants', []))
         all_trees = list(trees.values())
         for modname, tree in trees.items():
@@ -2270,23 +2293,30 @@ def normalise_trees(trees, reference=None, inline=True):
                 report['constants_propagated'].extend('%s:%s' % (modname, g) for g in got)
                 if got:
                     ExprNorm().visit(tree)
-    sn = StmtNorm()
-    for modname, tree in trees.items():
-        ExprNorm().visit(tree)
-        sn.module(tree)
-        ast.fix_missing_locations(tree)
-    if ref is not None:
+
+    def forms_stage():
+        for modname, tree in trees.items():
+            ExprNorm().visit(tree)
+            sn.module(tree)
+            ast.fix_missing_locations(tree)
+
+    def rename_stage():
         report['functions_renamed_back'] = restore_function_names(trees, ref)
-    if ref is not None and inline:
+
+    def inline_stage():
         inl = Inliner(trees, ref.get('functions', []))
         inl.run()
         report['helpers_inlined'] = inl.inlined
         report['helpers_removed'] = getattr(inl, 'removed', [])
         report['helpers_not_inlined'] = inl.rejected
         if inl.inlined:
-            for modname, tree in trees.items():
-                ExprNorm().visit(tree)
-                sn.module(tree)
-                ast.fix_missing_locations(tree)
+            forms_stage()
+    if ref is not None:
+        _guarded(trees, report, 'constants', consts_stage, disabled)
+    _guarded(trees, report, 'expression/statement forms', forms_stage, disabled)
+    if ref is not None:
+        _guarded(trees, report, 'renamed functions', rename_stage, disabled)
+    if ref is not None and inline:
+        _guarded(trees, report, 'helper inlining', inline_stage, disabled)
     report['steps'] = sn.stats
     return report
